@@ -51,7 +51,7 @@ claimed = {
    note="bound: string length 0..14 / byte length 0..10 (quick), 0..32 / 0..16 (thorough); longer inputs outside the claim. " + TRUST,
    ref="DESIGN.md section 6 C12"),
  "C13": dict(
-   text="ToDate, ParseDate, Date wire and JSON decoding, SystemDate and DateTime wire decoding and the encoders back are executed symbolically with the process zone a symbolic two-interval zone (offsets o1, o2 in +-14 h, transition anywhere within -14 h..+38 h of the date's 00:00 UTC), civil->instant resolution by Go's own time.Date algorithm transcribed into the model, all valid dates symbolic: the value must report and re-encode exactly the given year, month and day (date-times: exactly the transmitted fields whenever that civil time exists); a counterexample in the synthetic zone triggers a second run constrained to the real transitions of the installed tzdata and is replayed natively in that IANA zone before it is reported",
+   text="ToDate, ParseDate, Date wire and JSON decoding, SystemDate and DateTime wire decoding and the encoders back are executed symbolically with the process zone a symbolic two-interval zone (offsets o1, o2 in +-14 h, transition anywhere within -14 h..+38 h of the date's 00:00 UTC), civil->instant resolution by Go's own time.Date algorithm transcribed into the model, all valid dates symbolic: the value must report and re-encode exactly the given year, month and day (date-times: exactly the transmitted fields whenever that civil time exists); the four Date entry points are also run under any fixed offset, where a counterexample counts as it is; a counterexample in the synthetic two-interval zone triggers a second run constrained to the real transitions of the installed tzdata and is replayed natively in that IANA zone before it is reported",
    note="bounds: years 1..9999; zones with one transition near the date (transitions >= 48 h apart), jumps < 24 h (a zone that skips a whole calendar day is exempt by the property); the tzdata table keeps the earliest and latest occurrence of each (o1, o2, tau) transition shape 1800..2040; DateTime harness uses the contract of bcd.Decode proved by C12 instead of its body (compositional); the status system date/time recombination is covered under Z2 for GetStatus and for events delivered by Listen (harness/uhppote/c13_status.go). " + TRUST,
    ref="DESIGN.md section 6 C13"),
  "C14": dict(
@@ -59,7 +59,7 @@ claimed = {
    note="bounds: reject-side text length <= 11 (date), 6 (HH:mm), 9 (time of day), 8 (PIN), 17 (control state), 3 digits (task numbers); JSON strings restricted to printable ASCII without escapes (the encoders' own output is asserted to be in that class); zone = any fixed offset (Date, DateTime) or a two-interval zone refined against tzdata (DateTime on transition days); composites: segments 1..k (k = 0..3), four doors, PIN <= 999999, all 13 task types, three weekday sets; outside the claim: the text syntax of composite documents (encoding/json's), the reject side of composite types (documents not produced by json.Marshal are a havoc stub: any value of the static type, or an error - explored for panics only), Version (Sscanf), MAC (net.ParseMAC), free-text task names other than the 13 canonical ones. " + TRUST,
    ref="DESIGN.md section 6 C14"),
  "C15": dict(
-   text="the four address parsers, String and the format/parse round trip are executed symbolically (the repo's regular expressions are taken from the call sites and simulated as NFAs over symbolic bytes; netip's parsers and formatters are interpreted from their SSA) on strings assembled from an enumerated shape (digit counts of the four octets and the port) with symbolic digit characters: accepted iff the role's port rule holds, with exactly the octets and port of the text or the role's default; every string of symbolic bytes that contains no dotted quad is rejected by all four roles",
+   text="the four address parsers, String and the format/parse round trip are executed symbolically (the repo's regular expressions are taken from the call sites and simulated as NFAs over symbolic bytes; netip's parsers and formatters are interpreted from their SSA) on strings assembled from an enumerated shape (digit counts of the four octets and the port) with symbolic digit characters: accepted iff the role's port rule holds, with exactly the octets and port of the text or the role's default; every string of symbolic bytes that contains no dotted quad is rejected by all four roles; Set on a variable that already holds an address accepts exactly what the parser accepts and stores exactly what it returns; a text whose octet exceeds 255 or whose port exceeds 65535 is rejected",
    note="bounds: quick = 5 octet shapes x port of 0..5 digits per role and no-quad strings of length 0..9; thorough = all 81 x 6 shapes and no-quad strings up to 16 bytes; ports without leading zeros; strings with a dotted quad plus other text are not constrained by the property and not asserted on. " + TRUST,
    ref="DESIGN.md section 6 C15"),
  "C16": dict(
